@@ -77,10 +77,12 @@ def ref_prefix(spec, ref):
     return "ty" if i == 0 else f"ty{i}"
 
 
-def child_ns(spec, ref):
-    """namespace of the local child elements of `ref` (XSD: qualified only if the schema says so)"""
+def child_ns(spec, ref, name="a"):
+    """namespace of the local child element `name` of `ref`: its own form= if it has one (child `n` when the
+    schema has "n_form"), else the schema's elementFormDefault; qualified only if that says so (XSD 3.3.2)"""
     sch = schemas_of(spec)[schema_index(spec, ref)]
-    return sch["ns"] if sch.get("form") == "qualified" else None
+    form = sch.get("n_form") if name == "n" and sch.get("n_form") else sch.get("form")
+    return sch["ns"] if form == "qualified" else None
 
 
 def attr_ns(spec, ref):
@@ -98,13 +100,14 @@ def schema_text(spec, idx):
     if sch.get("attr_form") is not None:
         head += f' attributeFormDefault="{sch["attr_form"]}"'
     out.append(head + ">")
+    nform = f' form="{sch["n_form"]}"' if sch.get("n_form") else ""
     for r in all_refs(spec):
         if r.startswith("xsd:") or schema_index(spec, r) != idx:
             continue
         if r.startswith("E"):
             out.append(
                 f'<{x}:element name="{r}"><{x}:complexType><{x}:sequence>'
-                f'<{x}:element name="a" type="{x}:string"/><{x}:element name="n" type="{x}:int" minOccurs="0"/>'
+                f'<{x}:element name="a" type="{x}:string"/><{x}:element name="n" type="{x}:int" minOccurs="0"{nform}/>'
                 f'</{x}:sequence><{x}:attribute name="k" type="{x}:string"/></{x}:complexType></{x}:element>'
             )
         elif r.startswith("T"):
@@ -281,7 +284,8 @@ def gen_schemas(rng, xns):
     nss = [xns, xns.rstrip("/") + "/b", "urn:third"][:n]
     out = []
     for ns in nss:
-        out.append({"ns": ns, "form": rng.choice(FORMS + ["qualified"]), "attr_form": rng.choice(FORMS + [None])})
+        out.append({"ns": ns, "form": rng.choice(FORMS + ["qualified"]), "attr_form": rng.choice(FORMS + [None]),
+                    "n_form": rng.choice([None, None, "qualified", "unqualified"])})
     return out
 
 
